@@ -1,11 +1,41 @@
-//! C06: not built yet
+//! C06: exactly one matching ack per request, in order, to the right client (S4)
+use super::s4common::{self, Plan};
 use super::{Meta, Prop};
 use crate::common::{Ctx, Stats};
+#[allow(unused_imports)]
+use crate::sub::s4drive::{base_profile, Stepping, Weights};
+#[allow(unused_imports)]
+use rumqttd::Strategy;
 
-fn run(_ctx: &Ctx) -> Stats {
-    let mut s = Stats::default();
-    s.inconclusive.push("check not built yet".into());
-    s
+pub fn plan() -> Plan {
+    let mut p = base_profile("c06-requests");
+    p.w.ping = 6;
+    p.w.subscribe = 12;
+    p.w.unsubscribe = 6;
+    p.qos_weights = [1, 3, 3];
+    p.w.stall = 4;
+    let mut single = p.clone();
+    single.name = "c06-single";
+    single.stepping = Stepping::Single;
+    single.burst_pm = 150;
+    let mut turns = p.clone();
+    turns.name = "c06-turns";
+    turns.stepping = Stepping::Turns;
+    let profiles = vec![p, single, turns];
+    Plan {
+        profiles,
+        directed: vec![],
+        quick_histories: 400,
+        thorough_histories: 60000,
+    }
+}
+
+fn run(ctx: &Ctx) -> Stats {
+    s4common::run(ctx, &plan())
+}
+
+fn replay(ctx: &Ctx, doc: &serde_json::Value) -> Stats {
+    s4common::replay(ctx, &plan(), doc)
 }
 
 pub fn prop() -> Prop {
@@ -13,11 +43,11 @@ pub fn prop() -> Prop {
         id: "C06",
         meta: Meta {
             level: "exploration",
-            rule: "not built",
-            assumptions: &[],
-            floors: &[],
+            rule: "seeded histories rich in request packets (QoS1/2 publishes with PUBREL pacing, multi-filter SUBSCRIBE, UNSUBSCRIBE, PINGREQ, bursts, stalled consumers) against the real router; M-broker predicts the reply sequence per connection; every DeviceAck put in a link's buffer is compared with the head of that sequence, completeness at quiescent points. A case counts as distinct and non-trivial when its sequence of operation kinds is new and it reached at least one named corner state.",
+            assumptions: &["router stepped on one thread through verif hooks; link actors use the real LinkTx/LinkRx", "default segment sizes: backlog stays within retention"],
+            floors: &[("quiescent-point", 20), ("reply-order", 500)],
         },
         run,
-        replay: None,
+        replay: Some(replay),
     }
 }
